@@ -8,6 +8,8 @@ import Yaep.Model.Earley2
 import Yaep.Model.DefectCodes
 import Yaep.Model.MakeParse
 import Yaep.Model.BuildSet
+import Yaep.Model.CodeTable
+import Yaep.Model.BuildSet2
 /-!
 # The judge: compares the observations of the real library with the model
 
@@ -99,6 +101,16 @@ def judgeDefRes (prop : String) (cid : String) (o : Op) (res : Except ErrCode Gr
       let norm := fun (s : String) => " ".intercalate (words s)
       out := out.v cid o.n prop "D" (expRules.map norm == gotRules.map norm)
         s!"rules model={expRules} impl={gotRules}"
+      -- how token codes are looked up (Model/CodeTable.lean, C `int` arithmetic: `finish_defined`,
+      -- `find_spec`): dense vector with its bounds, or the hash table
+      match o.first "codetab" with
+      | some ws =>
+        let expTab := match CT.finish 10000 g.termCodes with
+          | some (some t) => s!"vect start={t.start} end={t.stop}"
+          | some none => "hash"
+          | none => "undefined"
+        out := out.v cid o.n "C15" "D" (" ".intercalate ws == expTab) s!"code table impl=[{" ".intercalate ws}] model=[{expTab}]"
+      | none => pure ()
     return ((hs.define res).1, out)
   | .error _ =>
     return ((hs.define res).1, out)
@@ -342,6 +354,29 @@ def judgeParse (cfg : ParseCfg) (cid : String) (o : Op) (hs : HState) (out : Out
       let okc := cores == tabC.nCores && dists == tabC.nDists && sets == tabC.nSets
       out := out.v cid o.n "C18" "D" okc
         s!"unique cores/distance vectors/sets: impl={cores}/{dists}/{sets} model={tabC.nCores}/{tabC.nDists}/{tabC.nSets}"
+    | none => pure ()
+  -- the same at level 2 (Model/BuildSet2.lean, `buildPLC2_eq_buildPL2`): situations carry their
+  -- context; the `la` line of the hook gives the lookahead set of every situation
+  if la == 2 && (sentence || recOff) && !(o.get "la").isEmpty && n ≤ 60 then
+    let an := g.analysis
+    let (errC, tabC, plC) := BS2.buildPLC2 g w
+    let fmt := fun (r d i : Nat) (ts : List Nat) => s!"{r},{d},{i}=" ++ String.join ((normSet ts).map fun t => s!"{t}.")
+    let modelSeq := (List.range plC.length).map fun j =>
+      ((plC.getD j default).items j).map fun it => fmt it.rule it.dot it.origin (la2 g an it.rule it.dot it.ctx)
+    let implSeq := (o.get "la").map fun ws => ws.drop 1
+    let implBag := implSeq.map sortStrs
+    let modelBag := modelSeq.map sortStrs
+    if errC != err then out := out.s cid s!"MODEL-INCONSISTENT level-2 step model error position {errC} vs {err}"
+    out := out.v cid o.n "C09" "D" (implBag == modelBag)
+      (if implBag == modelBag then s!"level-2 set construction: situations of {modelBag.length} sets with lookahead sets and multiplicity"
+       else s!"level-2 set construction differs (situations with lookahead sets, multiplicity) model={modelBag} impl={implBag}")
+    out := out.s cid s!"setorder2 same={implSeq == modelSeq}"
+    match o.first "cnt" with
+    | some ws =>
+      let cores := kvInt ws "cores"; let dists := kvInt ws "dists"; let sets := kvInt ws "sets"
+      let okc := cores == tabC.nCores && dists == tabC.nDists && sets == tabC.nSets
+      out := out.v cid o.n "C18" "D" okc
+        s!"level 2: unique cores/distance vectors/sets: impl={cores}/{dists}/{sets} model={tabC.nCores}/{tabC.nDists}/{tabC.nSets}"
     | none => pure ()
   -- deep tie of the lookahead sets of all items (static at level 1, dynamic at level 2)
   if la ≥ 1 && (sentence || recOff) && !(o.get "la").isEmpty && n ≤ 60 then
